@@ -158,6 +158,8 @@ def flush_signature(ev, paths, bulk=(1, 'deref', ('f', 'bulk'))):
         fill = None
         pre_loop = True
         for e in r.events:
+            if e['kind'] == 'loop_enter' and not pre_loop:
+                continue      # a later loop (zero words after the sealing point): not part of the release
             if e['kind'] == 'loop_enter':
                 pre_loop = False
                 for p, v in e['pre'].items():
@@ -177,6 +179,8 @@ def flush_signature(ev, paths, bulk=(1, 'deref', ('f', 'bulk'))):
     for r in paths:
         if r.end != 'backedge':
             continue
+        if sum(1 for e in r.events if e['kind'] == 'loop_enter') != 1:
+            continue      # the back edge belongs to a later loop (e.g. the zero words that follow the sealing point), not to the release of held-back words
         inloop = False
         for e in r.events:
             if e['kind'] == 'loop_enter':
@@ -187,7 +191,8 @@ def flush_signature(ev, paths, bulk=(1, 'deref', ('f', 'bulk'))):
                     if c08.is_call_on(e2, 'WriteWords::write', bulk):
                         first = role_words(e2['args'][1])
                         break
-                fills.add((repr(first), repr(role_words(e['args'][1]))))
+                if first is not None and sym.contains(first, lambda x: x == ('W',)):       # a release starts with the held-back word
+                    fills.add((repr(first), repr(role_words(e['args'][1]))))
     return sig, fills
 
 
